@@ -155,6 +155,8 @@ struct TaskGen<'a> {
   wchk: &'a BTreeMap<usize, RK>,
   /// Tasks that (statically, unconditionally at this point of the script) have been required before.
   chain: &'a BTreeMap<Tid, BTreeSet<Tid>>,
+  /// Percentage of requires that go to the next task (long require chains) instead of a random later task.
+  chain_bias: u64,
 }
 
 fn pick_rk(rng: &mut Rng, exact_only: bool) -> RK {
@@ -236,7 +238,7 @@ impl TaskGen<'_> {
         }
         4..=6 => {
           if self.me + 1 < self.ntasks {
-            let t = self.me + 1 + self.rng.below((self.ntasks - self.me - 1) as u64) as usize;
+            let t = if self.chain_bias > 0 && self.rng.chance(self.chain_bias) { self.me + 1 } else { self.me + 1 + self.rng.below((self.ntasks - self.me - 1) as u64) as usize };
             let chk = self.ochk_for(t);
             ops.push(Op::Require { task: t, chk });
             required.insert(t);
@@ -332,8 +334,10 @@ pub fn gen_program_w_sized(rng: &mut Rng, cfg: &GenCfg, ntasks: usize, nres: usi
   let mut tasks: Vec<TaskDef> = keys.iter().map(|k| TaskDef { key: *k, ops: vec![] }).collect();
   let mut chain: BTreeMap<Tid, BTreeSet<Tid>> = BTreeMap::new();
   let max_len = if cfg.xl { rng.range(3, 8) } else { rng.range(2, 6) };
+  // Larger bounds: 40 % of the programs are biased towards long require chains (deep execution stacks).
+  let chain_bias = if cfg.xl && rng.chance(40) { rng.range(50, 90) } else { 0 };
   for me in (0..ntasks).rev() {
-    let mut g = TaskGen { rng, me, ntasks, resources: &resources, writer: &writer, exact_only, rchk: BTreeMap::new(), ochk: BTreeMap::new(), wchk: &wchk, chain: &chain };
+    let mut g = TaskGen { rng, me, ntasks, resources: &resources, writer: &writer, exact_only, rchk: BTreeMap::new(), ochk: BTreeMap::new(), wchk: &wchk, chain: &chain, chain_bias };
     let mut required = BTreeSet::new();
     let mut written = BTreeSet::new();
     let mut ops = g.ops(0, &mut required, &mut written, max_len);
